@@ -378,7 +378,7 @@ class IndividualParameters:
         # Get the column names
         final_names = ["ID"]
         for p_name, p_shape in self._parameters_shape.items():
-            if p_shape == (1,) and "source" not in p_name:
+            if p_shape == () or (p_shape == (1,) and "source" not in p_name):
                 final_names.append(p_name)
             else:
                 final_names += [
